@@ -2,7 +2,7 @@
    SolverMixin.solve of the class generated from the same program (FSolveAll.w_solve_refines + FPassFacts.pass_agree). *)
 From Coq Require Import ZArith List Bool Lia ZifyBool.
 Import ListNotations.
-Require Import PyBase Solver SolverFacts FSem FSemFacts FSolve FSolveFacts FSolveSim FPassFacts FSolveAll.
+Require Import PyBase Solver SolverFacts FSem FSemFacts FSolve FSolveFacts FSolveSim FSolveRun FPassFacts FSolveAll.
 Open Scope Z_scope.
 
 Section PassSolve.
@@ -32,12 +32,14 @@ Section PassSolve.
   Notation N := (Z.to_nat (max_iter o)).
   Notation period_args := (period_args num sub absf ltb isfin zero evf fm d o ec).
 
-  (* what one period needs: room for the lags / leads, an in-span offset, benign max / min and no numpy warning along the
-     passes, finite check / endogenous values *)
+  Notation run_ok_prog := (run_ok_prog num add sub mul div neg absf ltb is_nan is_inf of_int fexp flog fpow round4 exp4 log4 pow4
+                                       zero one isfin).
+  (* what one period needs: room for the lags / leads, an in-span offset, finite check values to start from, and along the
+     passes that run: benign max / min, no numpy warning, finite check / endogenous values *)
   Definition period_ok_prog (p : nat) (v : vals) : Prop :=
     (p < n)%nat /\ feasible d n p = true /\ (offset o = 0 \/ 0 <= Z.of_nat p + offset o < Z.of_nat n) /\
-    (forall i, (i < N)%nat -> pass_ok (is_raise (errors o) && catch_first o) prog p (iterv num evf p (seeded num zero d o v p) i)) /\
-    stays_finite num isfin zero evf d p (seeded num zero d o v p) N.
+    all_finite num isfin (get_check num zero d (seeded num zero d o v p) p) = true /\
+    run_ok_prog (is_raise (errors o) && catch_first o) prog d o p (seeded num zero d o v p) N 0.
   Fixpoint solve_ok_prog (ps : list nat) (v : vals) : Prop :=
     match ps with
     | [] => True
@@ -61,17 +63,17 @@ Section PassSolve.
   Proof. intros idx v H. apply f_pass_shape. exact H. Qed.
 
   Lemma period_ok_of_prog p v : shape n m v -> period_ok_prog p v ->
-    period_ok num isfin zero evf (py_hook prog n) d o n p v.
+    period_ok num sub absf ltb isfin zero evf (py_hook prog n) d o n p v.
   Proof.
-    intros Hs (Hp & Hfeas & Hoff & Hok & Hfin).
-    split; [exact Hp|]. split; [exact Hfeas|]. split; [exact Hoff|]. split; [|exact Hfin].
-    intros i k Hi. unfold FSem.py_hook.
+    intros Hs (Hp & Hfeas & Hoff & Hf0 & Hrun).
+    split; [exact Hp|]. split; [exact Hfeas|]. split; [exact Hoff|]. split; [exact Hf0|].
     assert (Hf12 : (lags d <= p)%nat /\ (p + leads d < n)%nat).
     { unfold feasible in Hfeas. apply andb_true_iff in Hfeas as [Hf1 Hf2]. split; lia. }
     destruct Hf12 as [Hf1 Hf2].
-    apply (pass_agree _ n m (Z.of_nat (lags d)) (Z.of_nat (leads d)) (Z.of_nat p) p prog); auto; try lia.
-    - apply (iterv_shape num evf p n m _ (evf_shape (Z.of_nat p + 1))). apply seeded_shape. exact Hs.
+    apply (run_ok_of_prog num add sub mul div neg absf ltb is_nan is_inf of_int fexp flog fpow round4 exp4 log4 pow4 zero one isfin
+             neg_mul neg_div prog d o (Z.of_nat p) p n m _ Hsc); auto.
     - rewrite (py_pos_nonneg n (Z.of_nat p)) by lia. rewrite Nat2Z.id. reflexivity.
+    - cbn [iterv]. apply seeded_shape. exact Hs.
   Qed.
 
   Lemma solve_ok_of_prog : forall ps v, shape n m v -> solve_ok_prog ps v ->
